@@ -530,6 +530,21 @@ def run_field(case, obs):
             rec["result"] = field_json(h)
             rec["valid_dtype"] = str(h.valid.dtype)
             same_field_oracle(f, h, rep, save, fail)
+            # history: the same file name is written again with another field (same mesh, other values and validity)
+            # and read again - what comes back must be the field written last
+            if not marker and (case["sub"] + k) % 2 == 0:
+                kw2 = {} if case["vdims"] is None else {"vdims": list(case["vdims"])}
+                if case.get("unit") is not None:
+                    kw2["unit"] = case["unit"]
+                f2 = df.Field(f.mesh, nvdim=f.nvdim, value=(np.flip(f.array, axis=0) * 0.5 + 0.25).copy(),
+                              valid=~np.flip(f.valid, axis=1), **kw2)
+                st2, e2 = _err(lambda: f2.to_file(path, representation=rep, save_subregions=save))
+                st3, h2 = _err(lambda: df.Field.from_file(path)) if st2 == "ok" else ("skip", None)
+                obs["tags"].append("rewrite-same-path")
+                if st2 != "ok" or st3 != "ok":
+                    fail(f"[{rep}] writing a second field to the same file name and reading it back: write {st2} {e2 if st2 != 'ok' else ''} read {st3} {h2 if st3 != 'ok' else ''}")
+                else:
+                    same_field_oracle(f2, h2, rep, save, fail, marker=" [same file name written twice]")
             os.remove(path)
     if not (np.array_equal(snap[0], f.array) and np.array_equal(snap[1], f.valid)):
         fail("to_vtk / to_file modified the field")
